@@ -708,19 +708,32 @@ impl ZiPatch {
             let base_files = crate::patch::recurse(base_directory);
             let new_files = crate::patch::recurse(new_directory);
 
-            // A set of files not present in base, but in new (aka added files)
+            // A set of files in new that are not present in base or differ from it (aka added and changed files)
+            // Paths are compared relative to their own tree.
             let added_files: Vec<&PathBuf> = new_files
                 .iter()
                 .filter(|item| {
                     let metadata = fs::metadata(item).unwrap();
-                    !base_files.contains(item) && metadata.len() > 0 // TODO: we filter out zero byte files here, but does SqEx do that?
+                    if metadata.len() == 0 {
+                        // TODO: we filter out zero byte files here, but does SqEx do that?
+                        return false;
+                    }
+
+                    let relative_path = item.strip_prefix(new_directory).unwrap();
+                    let base_file = Path::new(base_directory).join(relative_path);
+                    !base_files.contains(&base_file) || read(&base_file).ok() != read(item).ok()
                 })
                 .collect();
 
-            // A set of files not present in the new directory, that used to be in base (aka removedf iles)
+            // A set of files that used to be in base, but have no (non-empty) counterpart in the new directory (aka removed files)
             let removed_files: Vec<&PathBuf> = base_files
                 .iter()
-                .filter(|item| !new_files.contains(item))
+                .filter(|item| {
+                    let relative_path = item.strip_prefix(base_directory).unwrap();
+                    let new_file = Path::new(new_directory).join(relative_path);
+                    !new_files.contains(&new_file)
+                        || fs::metadata(&new_file).map(|m| m.len() == 0).unwrap_or(true)
+                })
                 .collect();
 
             // Process added files
